@@ -77,7 +77,7 @@ func (g *Gen) freshName1() []byte {
 		}
 	}
 	// now and then a name that reads like a boolean literal when written out in full: it is a name all the same
-	if g.pick(40) == 0 {
+	if g.pick(14) == 0 {
 		for _, n := range []string{"true", "False", "TRUE", "fAlse", "truE", "FALSE"} {
 			if g.recased == nil {
 				g.recased = map[string]bool{}
